@@ -77,7 +77,7 @@ def gen(stratum, rng, tier):
 
     lab = rng.choice(["int", "int", "int", "int-sparse", "str", "tuple"])
     if stratum == "random-small":
-        n = rng.randint(1, 9)
+        n = rng.randint(1, 9) if rng.random() > 0.02 else 0  # the empty graph is a graph
         p = rng.choice([0.08, 0.15, 0.25, 0.4, 0.6])
         e = gc.gnp(rng, n, p, loops=rng.choice([0, 0, 0.15]))
         return _mk(rng, n, e, lab, dup=rng.choice([0, 0.2, 0.5]))
